@@ -185,6 +185,22 @@ func runPedersen(t *core.Tape, tier string, info *core.RunInfo, protocol bool) *
 			used[ix] = true
 			w.parties = append(w.parties, &party{id: len(w.parties), priv: nprivs[a], pub: npubs[a], oidx: -1, nidx: int(ix)})
 		}
+		// The new group's index space is its own: staying members need not keep their number. Renumber
+		// the new group with a permutation of 0..n-1 in a share of the runs, so that old and new indices
+		// of a member differ and collide with other members' (seed C11j compared a dealer index with the
+		// node's NEW index; with equal numbers nobody notices)
+		if t.Bool("cfg.renum", 400) {
+			var in []*party
+			for _, p := range w.parties {
+				if p.inNew() {
+					in = append(in, p)
+				}
+			}
+			for k, ix := range t.Perm("cfg.renum", len(in)) {
+				in[k].nidx = ix
+			}
+			info.Config["new_group_renumbered"] = true
+		}
 		for _, p := range w.parties {
 			if p.inNew() {
 				w.newNodes = append(w.newNodes, pdkg.Node{Index: uint32(p.nidx), Public: p.pub})
